@@ -27,7 +27,7 @@ META = dict(
           "small collections; empty and one-row tables. A case is distinct by the sha1 of its full scrambled row tuples "
           "and call arguments; non-triviality is per kind (>= 2 sortable rows, a real scramble, >= 1 computed parent, a "
           "removed duplicate site, ...)."),
-    REQUIRED=["sort:ref", "sort:idempotent", "sort:untouched-tables", "sort:invalid-start-rejected",
+    REQUIRED=["parents:first-row-of-site-is-a-child", "sort:ref", "sort:idempotent", "sort:untouched-tables", "sort:invalid-start-rejected",
               "sort:partial-then-full", "repair:loads", "repair:trees", "repair:genotypes",
               "repair:compute_mutation_parents", "repair:deduplicate_sites", "repair:compute_mutation_times",
               "repair:load-forms", "canon:two-scrambles-identical", "canon:ref", "parents:ref", "dedup:ref",
